@@ -248,6 +248,25 @@ func runC20(r *h.Run) {
 	if len(dups) > 0 {
 		r.Violate("duplicate-id", ctx+" side=plugin", fmt.Sprintf("plugin-side NextId returned duplicates: %v", dups))
 	}
+	// two clients attached to the same plugin (the original and a reattached
+	// one) shut it down at the same time: two shutdown requests race on the
+	// plugin side
+	if !c.Mux && c.TLS != "auto" && !killRace && w.Range("doublekill", 2) == 1 {
+		if rc := cl.ReattachConfig(); rc != nil {
+			b := reattachClient(r, c.Proto, rc, "B")
+			if o := r.Do("B.Client", 60*time.Second, func() (any, error) { return b.Client() }); o.Err == nil && !o.Hung {
+				w.Probe("double-kill")
+				var kwg sync.WaitGroup
+				kwg.Add(1)
+				go k.Trap(func() {
+					defer kwg.Done()
+					r.Do("B.Kill", 150*time.Second, func() (any, error) { b.Kill(); return nil, nil })
+				})
+				r.Do("A.Kill", 150*time.Second, func() (any, error) { cl.Kill(); return nil, nil })
+				kwg.Wait()
+			}
+		}
+	}
 	ko := r.Do("Kill", 150*time.Second, func() (any, error) { cl.Kill(); return nil, nil })
 	if ko.Hung {
 		r.Violate("hang", "op=Kill "+ctx, r.HostStacks("goplugin"))
